@@ -343,8 +343,9 @@ impl Subject for C10 {
                         }
                         self.store.entry(r).or_default().push(*k);
                     }
+                    self.last_load = None;
                 }
-                self.last_load = None;
+                // (an invalid rule is ignored: a re-load of the set loaded before it is still "the same set")
             }
             Op::ClearAll => {
                 match self.fam {
